@@ -73,6 +73,8 @@ type sys struct {
 	// after Clone the ORIGINAL lives on beside the copy (twin): two counters from then on, each with its own events
 	twin    *memmetrics.RollingCounter
 	twinRef refCounter
+	// a second, long-lived counter of ANOTHER shape (more buckets: a longer window) that is appended to the first
+	other *memmetrics.RollingCounter
 	rc   *memmetrics.RatioCounter
 	a, b refCounter
 }
@@ -115,8 +117,14 @@ func configs(tier string) []config {
 }
 
 func counterModel(cfg config, depth int, rep *lib.Report) *lib.Model[*sys] {
+	return counterModelW(cfg, depth, rep, false)
+}
+
+// withOther: the alphabet is Inc / Count / the two operations on the longer-window counter / the advances (Clone, Reset
+// and the fresh-counter Append belong to the main model).
+func counterModelW(cfg config, depth int, rep *lib.Report, withOther bool) *lib.Model[*sys] {
 	adv := advances(cfg.n, cfg.res)
-	ops := []string{"Inc(1)", "Count", "Append(other=2)", "Clone", "Reset", "Original.Inc(1)"}
+	ops := []string{"Inc(1)", "Count", "Append(other=2)", "Clone", "Reset", "Original.Inc(1)", "LongerWindowCounter.Inc(2)", "Append(LongerWindowCounter)"}
 	nOps := len(ops)
 	for _, d := range adv {
 		ops = append(ops, fmt.Sprintf("Advance(%v)", d))
@@ -128,11 +136,26 @@ func counterModel(cfg config, depth int, rep *lib.Report) *lib.Model[*sys] {
 		if err != nil {
 			panic(err)
 		}
-		return &sys{cfg: cfg, c: c}
+		o, err := memmetrics.NewCounter(2*cfg.n+2, cfg.res)
+		if err != nil {
+			panic(err)
+		}
+		return &sys{cfg: cfg, c: c, other: o}
 	}
 	m.Apply = func(s *sys, op int) string {
 		now := clock.Now().UTC()
 		switch op {
+		case 6:
+			s.other.Inc(2)
+			return ""
+		case 7:
+			// Append(o) is an increment of o.Count() made now - whatever o's own shape and however long o has been idle
+			k := s.other.Count()
+			if err := s.c.Append(s.other); err != nil {
+				return "append error: " + err.Error()
+			}
+			s.ref.add(now, int(k))
+			return fmt.Sprintf("appended %d", k)
 		case 0:
 			s.c.Inc(1)
 			s.ref.add(now, 1)
@@ -168,11 +191,19 @@ func counterModel(cfg config, depth int, rep *lib.Report) *lib.Model[*sys] {
 			return ""
 		}
 	}
-	m.Enabled = func(s *sys, op int) bool { return op != 5 || s.twin != nil }
+	m.Enabled = func(s *sys, op int) bool {
+		if withOther {
+			return op < 2 || op > 5
+		}
+		return op < 5 || op == 5 && s.twin != nil || op > 7
+	}
+	if withOther {
+		m.Name += "/with-a-longer-window-counter-appended"
+	}
 	m.Key = func(s *sys) string {
 		now := clock.Now().UTC()
 		d := lib.Dumper{Now: now}
-		k := d.Dump(s.c) + "|" + fmt.Sprint(now.UnixNano()) + "|" + s.ref.key(now)
+		k := d.Dump(s.c) + "|" + fmt.Sprint(now.UnixNano()) + "|" + s.ref.key(now) + "|other:" + d.Dump(s.other)
 		if s.twin != nil {
 			k += "|twin:" + d.Dump(s.twin) + "|" + s.twinRef.key(now)
 		}
@@ -308,7 +339,7 @@ func Run(tier string, sh lib.Shard, rep *lib.Report) {
 	rep.Bounds["configurations"] = "N in {1,2,3,5,10,16} x r in {1s,1.5s,2s,2.5s,3s,7s,10s,60s} x 4 clock phases"
 	rep.Rule = "breadth-first search over all operation histories up to the depth bound on the real counter; state key = reflective dump of the counter + absolute instant + reference increments still inside N*r (exact key: merges only identical futures); a state is non-trivial when the reference window holds at least one increment"
 	rep.Assume("A2: one API call observes one instant of the frozen clock")
-	rep.Require("states_with_recent_increments", "states_with_a_clone_and_its_original_alive", "states_with_boundary_latitude", "states_after_everything_aged_out", "ratio_states_nonempty_window", "ratio_states_empty_window", "prepared_state_searches")
+	rep.Require("states_with_recent_increments", "searches_with_a_longer_window_counter_appended", "states_with_a_clone_and_its_original_alive", "states_with_boundary_latitude", "states_after_everything_aged_out", "ratio_states_nonempty_window", "ratio_states_empty_window", "prepared_state_searches")
 	for i, cfg := range configs(tier) {
 		if !sh.Mine(i) {
 			continue
@@ -316,6 +347,9 @@ func Run(tier string, sh lib.Shard, rep *lib.Report) {
 		m := counterModel(cfg, depth, rep)
 		r := m.Run(rep)
 		rep.Sample(3, map[string]any{"model": m.Name, "result": r.Describe()})
+		mo := counterModelW(cfg, depth-1, rep, true)
+		mo.Run(rep)
+		rep.Count("searches_with_a_longer_window_counter_appended")
 		m2 := ratioModel(cfg, rdepth, rep)
 		r2 := m2.Run(rep)
 		rep.Sample(3, map[string]any{"model": m2.Name, "result": r2.Describe()})
